@@ -567,6 +567,15 @@ encodeResponse:
         /* Handshake response */
         *alertDescription = SSL_ALERT_NONE;
         rc = sslEncodeResponse(ssl, &tmp, requiredLen);
+        if (rc >= 0 && ssl->err != SSL_ALERT_NONE)
+        {
+            /* The flight could not be created and a fatal alert was
+               encoded in its place: the session is unusable from here,
+               as in the decoder for TLS 1.2 and below. */
+            ssl->flags |= SSL_FLAGS_ERROR;
+            *alertDescription = (unsigned char)ssl->err;
+            *alertLevel = SSL_ALERT_LEVEL_FATAL;
+        }
     }
     if (rc == SSL_FULL)
     {
